@@ -1,5 +1,5 @@
 #!/bin/bash
-# NOTE: never run tools/seedcheck.sh (or seedbatch/seedcross) side by side with tools/seeded_all.sh: seeded_all patches /repo in place and seedcheck copies /repo.
+# NOTE: seedcheck/seedbatch/seedcross work on a copy of the COMMITTED tree of /repo (git archive HEAD), so they can run beside tools/seeded_all.sh, which patches the working tree of /repo in place.
 # tools/seeded_all.sh [tier] — applies every stored seeded change to /repo in turn, runs the check of its property, reverts.
 # Prints one line per seed: detected (check exit 1) or MISSED. /repo must be clean.
 TIER=${1:-quick}
